@@ -1,7 +1,7 @@
 import XV.Lemmas.Assoc
 import XV.Lemmas.ChainFrame
 import XV.Model.Snapshot
-import XV.Lemmas.SnapRun
+import XV.Lemmas.SnapWalk
 /-!
 C18 — snapshot reads return a key's value as of the chosen main-chain block.
 Theorems about the backwards walk `XV.Snapshot.walkBack` (= `xModSnapshot.Get`):
@@ -303,5 +303,335 @@ example : snapshotGet hEnv hNode hConf 4 "k" 2 = some (6, 2) ∧ snapshotGet hEn
       (pends_foldl hEnv 0 [7, 8, 9] (hAt 4)) (by decide) "k" 2 (by decide),
    tip_snapshot_hides_pending hEnv (by decide) (hAt 4) hNode hConf 4 (by decide) (confirmed_of_rows _ _ _ (by decide))
       (pends_foldl hEnv 0 [7, 8, 9] (hAt 4)) (by decide) "j" 2 (by decide)⟩
+
+-- ================================================================== the version-chain invariant
+
+/-- **the version-chain invariant holds in the empty state** (`VChain`, Lemmas/SnapVChain.lean: for every key the
+chain from the current version along `prevOf` is a finite list of real writes of that key, its writers distinct,
+first pending ones in reverse pool order, then confirmed ones with non-increasing confirmation height) -/
+theorem vchain_empty (e : Env) (s : St) (confH : Nat → Option Nat) (h1 : s.ZU = []) (h2 : s.ZD = []) :
+    VChain e s confH :=
+  vchain_of_empty e s confH h1 h2
+
+/-- **… is kept by a submission** (`doTx`: the transaction, if admitted — every read cites the current version —
+is applied and becomes the newest pending writer), for a transaction the ledger does not hold -/
+theorem vchain_doTx (e : Env) (hids : EnvIds e) (s : St) (confH : Nat → Option Nat) (lh : Int) (i : Nat)
+    (h : VChain e s confH) (hfresh : confH i = none) : VChain e (doTx e s lh i).1 confH :=
+  vchain_doTx' e hids s confH lh i h hfresh
+
+/-- **… is kept by a block applied on an empty pool** (`todoBlock`): its transactions, distinct and new to the
+ledger, are recorded at the block's height, which is at least every height the ledger knows -/
+theorem vchain_todoBlock (e : Env) (hids : EnvIds e) (s s' : St) (confH : Nat → Option Nat) (lh : Int) (b : Block)
+    (h : VChain e s confH) (hp : s.pool = []) (ht : todoBlock e s lh b = some s') (hnd : b.txs.Nodup)
+    (hfresh : ∀ i ∈ b.txs, confH i = none) (htop : ∀ j bh, confH j = some bh → bh ≤ b.height) :
+    VChain e s' (fun j => if j ∈ b.txs then some b.height else confH j) :=
+  vchain_todoBlock' e hids s s' confH lh b h hp ht hnd hfresh htop
+
+/-- the same for `play` (`PlayAndRepost`) on an empty pool -/
+theorem vchain_play (e : Env) (hids : EnvIds e) (s : St) (confH : Nat → Option Nat) (lh : Int) (b : Block)
+    (h : VChain e s confH) (hp : s.pool = []) (hok : (play e s lh b).2 = .ok) (hnd : b.txs.Nodup)
+    (hfresh : ∀ i ∈ b.txs, confH i = none) (htop : ∀ j bh, confH j = some bh → bh ≤ b.height) :
+    VChain e (play e s lh b).1 (fun j => if j ∈ b.txs then some b.height else confH j) :=
+  vchain_todoBlock' e hids s _ confH lh b h hp (XV.C01.play_eq_todoBlock e s lh b hp hok).1 hnd hfresh htop
+
+/-- **… is kept by `undoTx` of the newest writer, pending**: `t` is the last transaction of the pool and holds the
+current version of every key it writes (one write per key; `UndoSafe`, Lemmas/UndoObs.lean, holds right after the
+application) -/
+theorem vchain_undoTx_pending (e : Env) (s : St) (confH : Nat → Option Nat) (t : Tx) (pool0 : List Nat)
+    (h : VChain e s confH) (hpool : s.pool = pool0 ++ [t.id]) (hself : e.tx t.id = t)
+    (hnd : XV.C01.koutDistinct t) (hsafe : UndoSafe s t)
+    (hnewest : ∀ ko ∈ t.kout, ∃ o, curVer s ko.key = some (t.id, o)) :
+    VChain e { undoTx e s t with pool := pool0 } confH :=
+  vchain_undo_pending e s confH t pool0 h hpool hself hnd hsafe hnewest
+
+/-- **… and by `undoTx` of the newest writer, confirmed** (a block being undone on an empty pool, newest
+transaction first): the ledger forgets the transaction -/
+theorem vchain_undoTx_confirmed (e : Env) (s : St) (confH : Nat → Option Nat) (t : Tx)
+    (h : VChain e s confH) (hpool : s.pool = []) (hself : e.tx t.id = t)
+    (hnd : XV.C01.koutDistinct t) (hsafe : UndoSafe s t)
+    (hnewest : ∀ ko ∈ t.kout, ∃ o, curVer s ko.key = some (t.id, o)) :
+    VChain e (undoTx e s t) (fun j => if j = t.id then none else confH j) :=
+  vchain_undo_confirmed e s confH t h hpool hself hnd hsafe hnewest
+
+/-- **the invariant holds on every replayed chain**: from a base state without keys, blocks (ids, oldest first) with
+strictly increasing heights, no transaction twice in a block or on the chain, the transactions of the chain, in
+order, each citing the current version of what it reads and reading what it writes (`RunV`, the key half of
+admission; C01 `ChainValid` implies it: `chainValid_run`); the height table is `confOf` of the chain -/
+theorem vchain_canonical (e : Env) (hids : EnvIds e) (g : St) (hg : ∀ key, curVer g key = none) (hgp : g.pool = [])
+    (chain : List Nat) (hvalid : RunV e (chainTxs e chain) (curVer g)) (honce : TxOnce e chain)
+    (htx : ∀ b ∈ chain, (e.block b).txs.Nodup)
+    (hup : chain.Pairwise (fun x y => (e.block x).height < (e.block y).height)) :
+    VChain e (replayChain e chain g) (confOf e chain) := by
+  have := vchain_replayChain e hids g hg hgp chain.reverse
+  rw [List.reverse_reverse] at this
+  exact (this hvalid honce (fun b hb => htx b (List.mem_reverse.mp hb)) (List.pairwise_reverse.mpr hup)).1
+
+/-- **what a snapshot returns on a state with the invariant**: the key's version chain is a finite list `l`, and for
+every fuel ≥ its length + 1 the snapshot at height `h` is the first link whose writer is not pending and is
+confirmed at or below `h` (none if there is no such link) -/
+theorem snapshot_first_eligible (e : Env) (s : St) (confH : Nat → Option Nat) (hv : VChain e s confH) (h : Nat)
+    (key : String) :
+    ∃ l, Links e key (curVer s key) l ∧ ∀ fuel, l.length + 1 ≤ fuel →
+      snapshotGet e s confH h key fuel = l.find? (fun v => !s.pool.contains v.1 && confLe confH h v.1) := by
+  obtain ⟨l, hl, ho⟩ := hv key
+  refine ⟨l, hl, fun fuel hf => ?_⟩
+  apply walkBack_links e s.pool confH h key _ l hl _ fuel hf
+  intro v hv'
+  exact ho.mem_cases v.1 (List.mem_map.mpr ⟨v, hv', rfl⟩)
+
+/-- the hypothesis "every version the state at B shows is confirmed at or below `hB`" of
+`snapshot_at_block_eq_live_then` follows from the invariant at B: `confH0` is the height table when B was the tip (no
+height above `hB`), the final table `confH` extends it -/
+theorem snapshot_at_block_of_vchain (e : Env) (hids : EnvIds e) (s s1 s' : St) (confH0 confH : Nat → Option Nat)
+    (hB : Nat) (bs : List Block)
+    (hpool : s.pool = []) (hv : VChain e s confH0) (htop : ∀ i bh, confH0 i = some bh → bh ≤ hB)
+    (hgrow : ∀ i bh, confH0 i = some bh → confH i = some bh)
+    (hext : Extends e s bs s1)
+    (hhigh : ∀ b ∈ bs, ∀ i ∈ b.txs, ∃ bh, confH i = some bh ∧ hB < bh)
+    (hpend : Pends e s1 s')
+    (hfresh : ∀ i ∈ s'.pool, confH i = none)
+    (key : String) (fuel : Nat) (hfuel : nWrites e (blocksTxs bs ++ s'.pool) key + 1 ≤ fuel) :
+    snapshotGet e s' confH hB key fuel = curVer s key := by
+  apply snapshot_at_block_eq_live_then e hids s s1 s' confH hB bs hpool _ hext hhigh hpend hfresh key fuel hfuel
+  intro k v hkv
+  obtain ⟨bh, h1, h2⟩ := vchain_confirmed_le e s confH0 hB hv hpool htop k v hkv
+  exact ⟨bh, hgrow _ _ h1, h2⟩
+
+-- non-vacuity, on the history above: the invariant holds on the replay of the whole chain, at block 2 (where the
+-- ledger knows no height above 2), and survives the submissions; undoing the newest pending writer (8) keeps it
+private theorem hV4 : VChain hEnv (replayChain hEnv [1, 2, 3, 4] {}) (confOf hEnv [1, 2, 3, 4]) :=
+  vchain_canonical hEnv (by decide) {} (fun _ => rfl) rfl [1, 2, 3, 4] (by decide) (by decide) (by decide) (by decide)
+private theorem hV2 : VChain hEnv (replayChain hEnv [1, 2] {}) (confOf hEnv [1, 2]) :=
+  vchain_canonical hEnv (by decide) {} (fun _ => rfl) rfl [1, 2] (by decide) (by decide) (by decide) (by decide)
+private def hNode' : St := [7, 8, 9].foldl (fun st i => (doTx hEnv st 0 i).1) (replayChain hEnv [1, 2, 3, 4] {})
+private theorem hVNode : VChain hEnv hNode' (confOf hEnv [1, 2, 3, 4]) :=
+  vchain_pends hEnv (by decide) _ _ _ (pends_foldl hEnv 0 [7, 8, 9] _) (by decide) hV4
+
+example : VChain hEnv (({} : St)) (fun _ => none) := vchain_empty hEnv {} _ rfl rfl
+example : hNode'.pool = [7] ++ [(hEnv.tx 8).id] ∧ hEnv.tx (hEnv.tx 8).id = hEnv.tx 8 ∧
+    XV.C01.koutDistinct (hEnv.tx 8) ∧ UndoSafe hNode' (hEnv.tx 8) ∧
+    (∀ ko ∈ (hEnv.tx 8).kout, curVer hNode' ko.key = some ((hEnv.tx 8).id, 0)) := by
+  refine ⟨by decide, by decide, by decide, ?_, by decide⟩
+  unfold UndoSafe; decide
+example : VChain hEnv { undoTx hEnv hNode' (hEnv.tx 8) with pool := [7] } (confOf hEnv [1, 2, 3, 4]) :=
+  vchain_undoTx_pending hEnv hNode' _ (hEnv.tx 8) [7] hVNode (by decide) (by decide) (by decide)
+    (by unfold UndoSafe; decide) (fun ko hko => ⟨0, by revert ko; decide⟩)
+-- the chain of "k" on the node, newest first: pending delete, double write of tx 6, delete, overwrite, re-creation,
+-- delete, creation — and the snapshot at each height is the first eligible link
+example : Links hEnv "k" (curVer hNode' "k") [(7, 0), (6, 2), (5, 0), (4, 0), (3, 0), (2, 0), (1, 0)] :=
+  Links.cons _ _ (by decide) (Links.cons _ _ (by decide) (Links.cons _ _ (by decide)
+    (Links.cons _ _ (by decide) (Links.cons _ _ (by decide) (Links.cons _ _ (by decide)
+      (Links.cons _ _ (by decide) Links.nil))))))
+example : ∀ h ∈ [0, 1, 2, 3, 4], snapshotGet hEnv hNode' (confOf hEnv [1, 2, 3, 4]) h "k" 8 =
+    [(7, 0), (6, 2), (5, 0), (4, 0), (3, 0), (2, 0), (1, 0)].find?
+      (fun v => !hNode'.pool.contains v.1 && confLe (confOf hEnv [1, 2, 3, 4]) h v.1) := by decide
+example : ∀ i bh, confOf hEnv [1, 2] i = some bh → bh ≤ 2 := confOf_le hEnv [1, 2] 2 (by decide)
+
+-- ================================================================== every block up to the tip
+
+/-- **for every block B up to the current tip**: on the replay of the chain `l1 ++ l2` (block ids, oldest first; any
+split, i.e. any B = last block of `l1`, and any height `hB` from B's up to below the next block's) from a base state
+without keys, with any sequence of submissions on top, the snapshot at `hB` — the ledger's height table being `confOf`
+of the chain — reads every key as the replay of `l1` alone does. The chain's transactions, in order, each cite the
+current version of what they read and read what they write (`RunV`; implied by C01 `ChainValid`); pending
+transactions must not be confirmed in `l1`; no transaction sits twice on the chain. -/
+theorem snapshot_every_block (e : Env) (hids : EnvIds e) (g : St) (l1 l2 : List Nat) (hB : Nat) (S : St)
+    (hg : ∀ key, curVer g key = none) (hgp : g.pool = [])
+    (hvalid : RunV e (chainTxs e (l1 ++ l2)) (curVer g)) (honce : TxOnce e (l1 ++ l2))
+    (hlow : ∀ b ∈ l1, (e.block b).height ≤ hB) (hhigh : ∀ b ∈ l2, hB < (e.block b).height)
+    (hpend : Pends e (replayChain e (l1 ++ l2) g) S)
+    (hfresh : ∀ i ∈ S.pool, i ∉ chainTxs e l1)
+    (key : String) (fuel : Nat) (hfuel : nWrites e (chainTxs e l2 ++ S.pool) key + 1 ≤ fuel) :
+    snapshotGet e S (confOf e (l1 ++ l2)) hB key fuel = curVer (replayChain e l1 g) key := by
+  obtain ⟨l, p1, p2, p3⟩ := hpend.run
+  rw [XV.C01.replayChain_pool, hgp, List.nil_append] at p1
+  rw [p1] at hfresh hfuel
+  exact snapshot_chain_core e hids g l1 l2 _ hB l S hg hvalid
+    (fun b hb i hi => confOf_eq e _ honce b hb i hi) hlow hhigh p1 p2 p3 hfresh key fuel hfuel
+
+-- non-vacuity: the history above, split after block 2 — and the theorem gives the computed answer
+example : snapshotGet hEnv hNode' (confOf hEnv ([1, 2] ++ [3, 4])) 2 "k" 4 = curVer (replayChain hEnv [1, 2] {}) "k" :=
+  snapshot_every_block hEnv (by decide) {} [1, 2] [3, 4] 2 hNode' (fun _ => rfl) rfl (by decide) (by decide) (by decide)
+    (by decide) (pends_foldl hEnv 0 [7, 8, 9] _) (by decide) "k" 4 (by decide)
+example : curVer (replayChain hEnv [1, 2] {}) "k" = some (4, 0) ∧ hNode'.pool = [7, 8] := by decide
+
+-- ================================================================== reorganisations
+
+/-- **after a reorganisation the snapshot at any block of the new main chain — in particular at the common ancestor of
+the two branches — still equals the live read at that block.** Hypotheses of C01 `walk_canonical` (block tree with
+parent links strictly down in height; base state `g` well-formed, without keys; the old tip's chain and
+the old pool valid; the node in canonical form), the destination chain valid and without repeated transactions,
+`B` any block on it; the height table is `confOf` of the destination chain (the new main chain); the transactions the
+walk re-submitted are not confirmed at or below `B`. The walk may undo and apply any number of blocks, prune or not.
+Applies to the result of a previous walk as well (walk to another branch and back). -/
+theorem snapshot_after_walk (e : Env) (hids : EnvIds e) (s : St) (lh : Int) (dest : Nat) (prune : Bool) (g : St)
+    (hpl : ParentLower e) (hok : (walk e s lh dest prune).2 = true) (hinv : KVInv e g)
+    (hg : ∀ key, curVer g key = none)
+    (hchain : XV.C01.ChainValid e (ancestors e (e.blocks.length + 1) s.pointer).reverse g)
+    (hpool : XV.C01.PoolValid e s.pool (XV.C01.canon e g s.pointer))
+    (hs : TRefines s (applyPool e s.pool (XV.C01.canon e g s.pointer)))
+    (hdchain : XV.C01.ChainValid e (ancestors e (e.blocks.length + 1) dest).reverse g)
+    (honce : TxOnce e (ancestors e (e.blocks.length + 1) dest))
+    (B : Nat) (hB : B ∈ ancestors e (e.blocks.length + 1) dest)
+    (hfresh : ∀ i ∈ (walk e s lh dest prune).1.pool,
+      i ∉ chainTxs e (ancestors e (e.blocks.length + 1) B).reverse)
+    (key : String) (fuel : Nat)
+    (hfuel : (chainTxs e (ancestors e (e.blocks.length + 1) dest).reverse).length +
+      (walk e s lh dest prune).1.pool.length + 1 ≤ fuel) :
+    snapshotGet e (walk e s lh dest prune).1 (confOf e (ancestors e (e.blocks.length + 1) dest))
+      (e.block B).height key fuel = curVer (XV.C01.canon e g B) key :=
+  snapshot_walk_core e hids s lh dest prune g hpl hok hinv hg hchain hpool hs hdchain honce B hB hfresh key fuel
+    hfuel
+
+/-- the same without a walk: on a node in canonical form the snapshot at any block `B` of the tip's chain is the
+live read of the canonical state of `B` -/
+theorem snapshot_on_canonical_node (e : Env) (hids : EnvIds e) (s : St) (g : St) (hpl : ParentLower e)
+    (hg : ∀ key, curVer g key = none)
+    (hchain : XV.C01.ChainValid e (ancestors e (e.blocks.length + 1) s.pointer).reverse g)
+    (hpool : XV.C01.PoolValid e s.pool (XV.C01.canon e g s.pointer))
+    (hs : TRefines s (applyPool e s.pool (XV.C01.canon e g s.pointer)))
+    (honce : TxOnce e (ancestors e (e.blocks.length + 1) s.pointer))
+    (B : Nat) (hB : B ∈ ancestors e (e.blocks.length + 1) s.pointer)
+    (hfresh : ∀ i ∈ s.pool, i ∉ chainTxs e (ancestors e (e.blocks.length + 1) B).reverse)
+    (key : String) (fuel : Nat)
+    (hfuel : (chainTxs e (ancestors e (e.blocks.length + 1) s.pointer).reverse).length + s.pool.length + 1 ≤ fuel) :
+    snapshotGet e s (confOf e (ancestors e (e.blocks.length + 1) s.pointer)) (e.block B).height key fuel =
+      curVer (XV.C01.canon e g B) key :=
+  snapshot_canonical_core e hids s g hpl hg hchain hpool hs honce B hB hfresh key fuel hfuel
+
+/-- **a snapshot at a common ancestor does not change across a reorganisation**: for `B` on the chain of the old tip
+and of the destination, the snapshot at `B` before the walk (height table of the old main chain) and after it
+(height table of the new one) are the same — the live read of the canonical state of `B` -/
+theorem snapshot_common_ancestor_stable (e : Env) (hids : EnvIds e) (s : St) (lh : Int) (dest : Nat) (prune : Bool)
+    (g : St) (hpl : ParentLower e) (hok : (walk e s lh dest prune).2 = true) (hinv : KVInv e g)
+    (hg : ∀ key, curVer g key = none)
+    (hchain : XV.C01.ChainValid e (ancestors e (e.blocks.length + 1) s.pointer).reverse g)
+    (hpool : XV.C01.PoolValid e s.pool (XV.C01.canon e g s.pointer))
+    (hs : TRefines s (applyPool e s.pool (XV.C01.canon e g s.pointer)))
+    (hdchain : XV.C01.ChainValid e (ancestors e (e.blocks.length + 1) dest).reverse g)
+    (honce : TxOnce e (ancestors e (e.blocks.length + 1) s.pointer))
+    (honce' : TxOnce e (ancestors e (e.blocks.length + 1) dest))
+    (B : Nat) (hB : B ∈ ancestors e (e.blocks.length + 1) s.pointer)
+    (hB' : B ∈ ancestors e (e.blocks.length + 1) dest)
+    (hfresh : ∀ i ∈ s.pool, i ∉ chainTxs e (ancestors e (e.blocks.length + 1) B).reverse)
+    (hfresh' : ∀ i ∈ (walk e s lh dest prune).1.pool,
+      i ∉ chainTxs e (ancestors e (e.blocks.length + 1) B).reverse)
+    (key : String) (fuel : Nat)
+    (hfuel : (chainTxs e (ancestors e (e.blocks.length + 1) s.pointer).reverse).length + s.pool.length + 1 ≤ fuel)
+    (hfuel' : (chainTxs e (ancestors e (e.blocks.length + 1) dest).reverse).length +
+      (walk e s lh dest prune).1.pool.length + 1 ≤ fuel) :
+    snapshotGet e (walk e s lh dest prune).1 (confOf e (ancestors e (e.blocks.length + 1) dest))
+        (e.block B).height key fuel =
+      snapshotGet e s (confOf e (ancestors e (e.blocks.length + 1) s.pointer)) (e.block B).height key fuel := by
+  rw [snapshot_after_walk e hids s lh dest prune g hpl hok hinv hg hchain hpool hs hdchain honce' B hB' hfresh'
+      key fuel hfuel',
+    snapshot_on_canonical_node e hids s g hpl hg hchain hpool hs honce B hB hfresh key fuel hfuel]
+
+-- non-vacuity: blocks 1 ← 2 ← 3 (branch A: "k" created, overwritten, deleted) and 1 ← 4 ← 5 ← 6 (branch B: "k" deleted,
+-- re-created, overwritten); the node is at block 3 with transactions 40 (re-creates "k") and 41 (creates "j") pending,
+-- walks to block 6 (40 cannot be re-submitted, 41 is), and back to block 3
+private def rEnv : Env := {
+  txs := [
+    (10, ⟨10, false, [], [], [⟨"k", none⟩], [⟨"k", "a", false⟩]⟩),
+    (20, ⟨20, false, [], [], [⟨"k", some (10, 0)⟩], [⟨"k", "b", false⟩]⟩),
+    (21, ⟨21, false, [], [], [⟨"k", some (20, 0)⟩], [⟨"k", "", true⟩]⟩),
+    (30, ⟨30, false, [], [], [⟨"k", some (10, 0)⟩], [⟨"k", "", true⟩]⟩),
+    (31, ⟨31, false, [], [], [⟨"k", some (30, 0)⟩], [⟨"k", "c", false⟩]⟩),
+    (32, ⟨32, false, [], [], [⟨"k", some (31, 0)⟩], [⟨"k", "d", false⟩]⟩),
+    (40, ⟨40, false, [], [], [⟨"k", some (21, 0)⟩], [⟨"k", "e", false⟩]⟩),
+    (41, ⟨41, false, [], [], [⟨"j", none⟩], [⟨"j", "x", false⟩]⟩)],
+  blocks := [(1, ⟨1, none, 1, [10], "m"⟩), (2, ⟨2, some 1, 2, [20], "m"⟩), (3, ⟨3, some 2, 3, [21], "m"⟩),
+             (4, ⟨4, some 1, 2, [30], "m"⟩), (5, ⟨5, some 4, 3, [31], "m"⟩), (6, ⟨6, some 5, 4, [32], "m"⟩)] }
+private def rNode : St := { applyPool rEnv [40, 41] (XV.C01.canon rEnv {} 3) with pool := [40, 41] }
+private def rThere : St := (walk rEnv rNode 0 6 false).1
+private def rBack : St := (walk rEnv rThere 0 3 false).1
+
+example : rNode.pointer = 3 ∧ curVer rNode "k" = some (40, 0) ∧ (walk rEnv rNode 0 6 false).2 = true ∧
+    rThere.pointer = 6 ∧ rThere.pool = [41] ∧ curVer rThere "k" = some (32, 0) ∧ curVer rThere "j" = some (41, 0) ∧
+    (walk rEnv rThere 0 3 false).2 = true ∧ rBack.pointer = 3 ∧ rBack.pool = [41] ∧
+    curVer rBack "k" = some (21, 0) := by decide
+-- computed: after the walk the snapshots along the new main chain 1 ← 4 ← 5 ← 6 are the live reads of then (block 4
+-- holds the delete marker), the pending "j" is never seen; after walking back, those along 1 ← 2 ← 3
+example : ∀ p ∈ [(1, some (10, 0)), (4, some (30, 0)), (5, some (31, 0)), (6, some (32, 0))],
+    snapshotGet rEnv rThere (confOf rEnv (ancestors rEnv 7 6)) (rEnv.block p.1).height "k" 9 = p.2 ∧
+    curVer (XV.C01.canon rEnv {} p.1) "k" = p.2 ∧
+    snapshotGet rEnv rThere (confOf rEnv (ancestors rEnv 7 6)) (rEnv.block p.1).height "j" 9 = none := by decide
+example : ∀ p ∈ [(1, some (10, 0)), (2, some (20, 0)), (3, some (21, 0))],
+    snapshotGet rEnv rBack (confOf rEnv (ancestors rEnv 7 3)) (rEnv.block p.1).height "k" 9 = p.2 ∧
+    curVer (XV.C01.canon rEnv {} p.1) "k" = p.2 := by decide
+-- and the hypotheses of `snapshot_after_walk` / `snapshot_common_ancestor_stable` hold for B = block 1, the common ancestor
+private theorem rPL : ParentLower rEnv := parentLower_of_blocks _ (by decide)
+private theorem rHs : TRefines rNode (applyPool rEnv rNode.pool (XV.C01.canon rEnv {} rNode.pointer)) :=
+  (TRefines.refl _).of_tables ⟨rfl, rfl, rfl, rfl⟩ ⟨rfl, rfl, rfl, rfl⟩
+example : snapshotGet rEnv rThere (confOf rEnv (ancestors rEnv 7 6)) 1 "k" 9 = curVer (XV.C01.canon rEnv {} 1) "k" :=
+  snapshot_after_walk rEnv (by decide) rNode 0 6 false {} rPL (by decide) (KVInv_empty rEnv {} rfl rfl)
+    (fun _ => rfl) (chainValid_of_ok _ _ _ (by decide)) (poolValid_of_ok _ _ _ (by decide)) rHs
+    (chainValid_of_ok _ _ _ (by decide)) (by decide) 1 (by decide) (by decide) "k" 9 (by decide)
+example : snapshotGet rEnv rThere (confOf rEnv (ancestors rEnv 7 6)) 1 "k" 9 =
+    snapshotGet rEnv rNode (confOf rEnv (ancestors rEnv 7 3)) 1 "k" 9 :=
+  snapshot_common_ancestor_stable rEnv (by decide) rNode 0 6 false {} rPL (by decide) (KVInv_empty rEnv {} rfl rfl)
+    (fun _ => rfl) (chainValid_of_ok _ _ _ (by decide)) (poolValid_of_ok _ _ _ (by decide)) rHs
+    (chainValid_of_ok _ _ _ (by decide)) (by decide) (by decide) 1 (by decide) (by decide) (by decide) (by decide)
+    "k" 9 (by decide) (by decide)
+
+-- ================================================================== what is NOT true: a height table of another branch
+
+/-- the chain theorem (`snapshot_every_block`, no pending transactions) with the height table only required to give
+every transaction of the chain the height of SOME block of the block tree that contains it — not necessarily the
+block on the chain the snapshot is taken on -/
+def snapshot_any_branch_statement : Prop :=
+  ∀ (e : Env) (g : St) (l1 l2 : List Nat) (confH : Nat → Option Nat) (hB : Nat) (key : String) (fuel : Nat),
+    EnvIds e → g.ZU = [] → g.ZD = [] → g.pool = [] →
+    RunV e (chainTxs e (l1 ++ l2)) (curVer g) → TxOnce e (l1 ++ l2) →
+    (∀ b ∈ l1, (e.block b).height ≤ hB) → (∀ b ∈ l2, hB < (e.block b).height) →
+    (∀ i ∈ chainTxs e (l1 ++ l2), ∃ p ∈ e.blocks, i ∈ p.2.txs ∧ confH i = some p.2.height) →
+    nWrites e (chainTxs e l2) key + 1 ≤ fuel →
+    snapshotGet e (replayChain e (l1 ++ l2) g) confH hB key fuel = curVer (replayChain e l1 g) key
+
+-- the witness: transaction 1 (creates "k") sits in block 2 (branch A: 1 ← 2, height 2) AND in block 4 (branch B:
+-- 1 ← 3 ← 4, height 3; block 3 is empty). The node is on branch B. If the ledger answers "transaction 1 → height 2"
+-- (the block of the other branch), the snapshot at block 3 (height 2) returns version (1,0), although "k" did not exist
+-- when block 3 was the tip. TO REPLAY ON THE IMPLEMENTATION: confirm the same transaction in two sibling branches at
+-- different heights (first on the branch that is / becomes the side branch), make the higher one the main chain, read
+-- the key through a snapshot at a main-chain block between the two heights — does `xModSnapshot.Get` take the block of
+-- the transaction from the main chain (`QueryTransaction` → `Blockid` after the fork switch), or the stale one?
+private def bEnv : Env := {
+  txs := [(1, ⟨1, false, [], [], [⟨"k", none⟩], [⟨"k", "a", false⟩]⟩)],
+  blocks := [(1, ⟨1, none, 1, [], "m"⟩), (2, ⟨2, some 1, 2, [1], "m"⟩), (3, ⟨3, some 1, 2, [], "m"⟩),
+             (4, ⟨4, some 3, 3, [1], "m"⟩)] }
+
+/-- **the statement is false**: a height table that reports the block of another branch makes a snapshot expose a write
+that did not exist at the snapshot block -/
+theorem snapshot_any_branch_counterexample : ¬ snapshot_any_branch_statement := by
+  intro h
+  have := h bEnv {} [1, 3] [4] (fun i => if i = 1 then some 2 else none) 2 "k" 2 (by decide) rfl rfl rfl
+    (by decide) (by decide) (by decide) (by decide) (by decide) (by decide)
+  revert this
+  decide
+
+example : snapshotGet bEnv (replayChain bEnv [1, 3, 4] {}) (fun i => if i = 1 then some 2 else none) 2 "k" 2 = some (1, 0) ∧
+    curVer (replayChain bEnv [1, 3] {}) "k" = none ∧
+    snapshotGet bEnv (replayChain bEnv [1, 3, 4] {}) (confOf bEnv [1, 3, 4]) 2 "k" 2 = none := by decide
+
+/-- the strongest true version: the missing hypothesis is `hmain` — the height table reports, for every transaction
+of the chain, the height of its block ON THAT CHAIN (the main chain) -/
+theorem snapshot_any_branch_partial (e : Env) (g : St) (l1 l2 : List Nat) (confH : Nat → Option Nat) (hB : Nat)
+    (key : String) (fuel : Nat)
+    (hids : EnvIds e) (h1 : g.ZU = []) (h2 : g.ZD = []) (_h3 : g.pool = [])
+    (hrun : RunV e (chainTxs e (l1 ++ l2)) (curVer g)) (_honce : TxOnce e (l1 ++ l2))
+    (hlow : ∀ b ∈ l1, (e.block b).height ≤ hB) (hhigh : ∀ b ∈ l2, hB < (e.block b).height)
+    (_hsome : ∀ i ∈ chainTxs e (l1 ++ l2), ∃ p ∈ e.blocks, i ∈ p.2.txs ∧ confH i = some p.2.height)
+    (hmain : ∀ b ∈ l1 ++ l2, ∀ i ∈ (e.block b).txs, confH i = some (e.block b).height)
+    (hfuel : nWrites e (chainTxs e l2) key + 1 ≤ fuel) :
+    snapshotGet e (replayChain e (l1 ++ l2) g) confH hB key fuel = curVer (replayChain e l1 g) key := by
+  have hg : ∀ k, curVer g k = none := fun k => by unfold curVer; rw [h1, h2]; rfl
+  have hp : (replayChain e (l1 ++ l2) g).pool = [] := by rw [XV.C01.replayChain_pool, _h3]
+  exact snapshot_chain_core e hids g l1 l2 confH hB [] _ hg hrun hmain hlow hhigh hp trivial rfl
+    (fun _ h => by cases h) key fuel (by simpa using hfuel)
+
+example : snapshotGet bEnv (replayChain bEnv ([1, 3] ++ [4]) {}) (confOf bEnv [1, 3, 4]) 2 "k" 2 =
+    curVer (replayChain bEnv [1, 3] {}) "k" :=
+  snapshot_any_branch_partial bEnv {} [1, 3] [4] (confOf bEnv [1, 3, 4]) 2 "k" 2 (by decide) rfl rfl rfl (by decide)
+    (by decide) (by decide) (by decide) (by decide) (by decide) (by decide)
 
 end XV.C18
